@@ -8,6 +8,13 @@ import (
 )
 
 const requireLibs = "CTree.CTreeModel Path.PathModel Cache.CacheModel Cache.MultiCache Cache.C14Check"
+const caseTypeName = "mcase"
+const checkFnName = "check_all"
+
+func wrapCase(term string) string { return term }
+
+// latency histories belong to C15
+func addLatCase(e *emitter, c *Case) {}
 
 var allTargets = []string{"t", "u", "v", "w"}
 
